@@ -140,7 +140,8 @@ def main():
     # ---- (c1) chain_swap_step: acceptance boundary, with the chain's own prior (inbreeding) and temperatures --------
     xt = []
     for i, (F, ti, tj) in enumerate([(0.0, 1.0, 0.5), (0.3, 1.0, 0.1), (0.5, 0.6, 0.01), (0.15, 1.0, 0.9)]):
-        for c in ("MC_3_2_23", "MC_2_3_223") if quick else ("MC_3_2_23", "MC_2_3_223", "MC_4_2_22", "MC_3_3_222"):
+        # ploidy 4 and more: genotypes with the same number of distinct haplotypes but different priors (3:1 vs 2:2)
+        for c in ("MC_3_2_23", "MC_2_3_223", "MC_4_2_22") if quick else ("MC_3_2_23", "MC_2_3_223", "MC_4_2_22", "MC_3_3_222", "MC_5_2_22"):
             P, A = GRID[c]
             xt.append({"op": "exchange_step", "A": A, "P": P, "states": [{"g": s["g"]} for s in states.get(c, [])], "seed": ck.seed + i, "F": F, "ti": ti, "tj": tj})
     res = pool.map_tasks("impl.c01", xt, mode="py")
